@@ -78,6 +78,33 @@ def gen_cases(rng, tier):
         out.append(Case("spans", [text], {"kind": "spans", "n": len(st)}))
         if rng.random() < 0.35 and b"$__" not in text:
             out.append(Case("spanned", [b"generic", text], {"kind": "spanned-generic"}))
+        if rng.random() < 0.08 and b"$__" not in text and not text.startswith(b"\xef\xbb\xbf"):
+            out.append(Case("spans", [b"\xef\xbb\xbf" + text], {"kind": "spans", "n": len(st), "family": "bom"}))
+            out.append(Case("spanned", [b"generic", b"\xef\xbb\xbf" + text], {"kind": "spanned-generic", "family": "bom"}))
+    # every order of the headers of small table trees: a deep header first creates its super-tables implicitly, their own
+    # header re-opens them later (the span of a table with a header is its own section, whenever the header comes)
+    import itertools
+    trees = [
+        [(b"p",), (b"p", b"a"), (b"p", b"a", b"b")],
+        [(b"a", b"b", b"c"), (b"a", b"x"), (b"a", b"y"), (b"a",), (b"a", b"b")],
+        [(b"p",), (b"p", b"a", b"b"), (b"q",), (b"p", b"c"), (b"p", b"a")],
+        [(b"t", b"u", b"v", b"w"), (b"t",), (b"t", b"u"), (b"t", b"u", b"v")],
+    ]
+    for paths in trees:
+        perms = list(itertools.permutations(range(len(paths))))
+        if len(perms) > 24:
+            perms = rng.sample(perms, 24 if tier == "quick" else 120)
+        for perm in perms:
+            st = []
+            for hi in perm:
+                st.append(("hdr", list(paths[hi])))
+                for j in range(rng.choice([0, 1, 2])):
+                    st.append(("kv", [b"k%d%d" % (hi, j)], ("s", ("h\u00e9llo %d" % j).encode())))
+            if G.ref_eval(st)[0] != "valid":
+                continue
+            text = G.Renderer(rng, comment_p=0.4, ws_p=0.4, crlf_p=0.3).document(st)
+            out.append(Case("spans", [text], {"kind": "spans", "n": len(st), "family": "header-order"}))
+            out.append(Case("spanned", [b"generic", text], {"kind": "spanned-generic", "family": "header-order"}))
     out += struct_docs(rng, tier)
     for t in [b"a.b = 1\n", b"t.x = 5\nt.y = 'q'\n", b"c = {d.e = 1, d.f = 2}\n", "'é' = 'ü'\n\"日本\".x = [ 'é', {k = \"😀\"} ]\n".encode(),
               b"\xef\xbb\xbfa = 1\r\n[t]\r\nk = 2\r\n", b"[[u]]\n[[u]]\nz = 3\n[u.v]\nw = 1\n"]:
@@ -109,6 +136,8 @@ def oracle(case, line):
                 return "values differ after erasing spans"
             if f.get("spans") != "same":
                 return "spans delivered through serde differ from the document's spans"
+            if "slice" in f and f.get("slice") != "same":
+                return "toml_edit::de::from_slice delivers other spans than from_str on the same bytes: slice=%s" % f.get("slice")
         return None
     return None
 
@@ -118,7 +147,7 @@ def known_class(case, line):
     # pinned by the repo's own test serde::span_for_sequence_as_map (error located at the key instead)
     f = _fields(line)
     if case.cmd == "spanned" and case.args[0] == b"generic" and f.get("plain") == "ok" and f.get("wrapped") == "err" \
-            and int(f.get("nospan", "0")) > 0:
+            and int(f.get("nospan", "0")) > 0 and int(f.get("nospan_explicit", "0")) == 0:
         return "C14-implicit-table-span"
     return None
 
